@@ -166,6 +166,7 @@ class M2Executor(Executor):
         t0 = _t.time()
         smt.beat(60.0)
         r = s.check()
+        smt.beat(0)
         return not (r == z3.unsat and _t.time() - t0 < 1.2)
 
     # -------------------------------------------------- expressions: lenient
